@@ -187,7 +187,8 @@ def rule_R3(ctx, f):
     if len(loops) != 1:
         return
     n, elem, idx, body_entry, exit_t, e = loops[0]
-    ie = [c for c in b.calls_to("Vec::is_empty") if peel(c.args[0]) == P(1)]
+    # the emptiness test that selects the defaults is the one before the validation loop (a later `debug_assert!(!buckets.is_empty())` is not it)
+    ie = [c for c in b.calls_to("Vec::is_empty") if peel(c.args[0]) == P(1) and b.dominates(c.bb, n.bb)]
     ok = False
     if len(ie) == 1:
         be = b.bool_edges(ie[0].target)
@@ -379,7 +380,19 @@ def rule_R6(ctx, f):
             found = False
             for bi in b.reachable_blocks():
                 be = b.bool_edges(bi)
-                if be and be[0][0] == "binop" and be[0][1] == op and peel(be[0][2]) == P(param) and const_int(be[0][3]) == k:
+                if not (be and be[0][0] == "binop"):
+                    continue
+                op2, x_, y_ = be[0][1], be[0][2], be[0][3]
+                # the same set of rejected values written differently: `k > x` for `x < k`; for an unsigned x, `x == 0` / `x <= 0` for `x < 1`
+                if peel(y_) == P(param) and const_int(x_) is not None and op2 in ("Gt", "Ge", "Lt", "Le"):
+                    op2, x_, y_ = {"Gt": "Lt", "Ge": "Le", "Lt": "Gt", "Le": "Ge"}[op2], y_, x_
+                unsigned = b.local_ty(param).startswith("u")
+                same = (op2 == op and const_int(y_) == k)
+                if op == "Lt" and unsigned and k == 1:
+                    same = same or (op2 in ("Eq", "Le") and const_int(y_) == 0)
+                if op == "Le" and not b.local_ty(param).startswith("f"):
+                    same = same or (op2 == "Lt" and const_int(y_) == k + 1)
+                if peel(x_) == P(param) and same:
                     found = rejecting(b, be[1]) and all(b.edge_dominates(bi, be[2], x) for x in okb)
             ctx.ob(rid, "%s|guard-arg%d-%s-%s" % (fn, param, op, k), found, "%s must return Err when argument %d %s %s" % (fn, param, {"Lt": "<", "Le": "<="}[op], k), site=b.raw["span"]["at"])
 
